@@ -20,7 +20,44 @@ Lemma ext_trans a b c : ext a b -> ext b c -> ext a c.
 Proof. intros H1 H2 m ks p H. apply H2, H1, H. Qed.
 
 Definition memo_ok (E : env) (mm : memo) : Prop :=
-  forall l v tm, memo_find (l, v) mm = Some tm -> time_parse E l v = Some tm.
+  forall l v tm, In ((l, v), tm) mm -> time_parse E l v = Some tm.
+
+Lemma memo_find_in k mm tm : memo_find k mm = Some tm -> In (k, tm) mm.
+Proof.
+  induction mm as [|[k' v] mm IH]; cbn; [discriminate|].
+  destruct (mkey_eqb k k') eqn:Hk.
+  - intros H; inversion H; subst. left. f_equal.
+    unfold mkey_eqb in Hk. destruct k, k'. cbn in Hk. apply andb_prop in Hk as [H1 H2].
+    apply bytes_eqb_spec in H1. apply bytes_eqb_spec in H2. subst. reflexivity.
+  - intros H. right. auto.
+Qed.
+Lemma memo_del_incl k mm x : In x (memo_del k mm) -> In x mm.
+Proof.
+  induction mm as [|[k' v] mm IH]; cbn; [intros []|]. destruct (mkey_eqb k k').
+  - intros H; right; exact H.
+  - intros [<- | H]; [left; reflexivity | right; auto].
+Qed.
+Lemma in_removelast {A} (l : list A) x : In x (removelast l) -> In x l.
+Proof.
+  induction l as [|a l IH]; cbn; [intros []|]. destruct l; [intros []|].
+  intros [<- | H]; [left; reflexivity | right; auto].
+Qed.
+Lemma memo_ok_get E k mm tm mm' : memo_ok E mm -> memo_get k mm = Some (tm, mm') ->
+  time_parse E (fst k) (snd k) = Some tm /\ memo_ok E mm'.
+Proof.
+  unfold memo_get. intros Hok H. destruct (memo_find k mm) as [v|] eqn:Hf; [|discriminate].
+  inversion H; subst. pose proof (memo_find_in _ _ _ Hf) as Hin. destruct k as [l x].
+  split; [apply Hok; exact Hin|].
+  intros l' v' tm' [He | Hin']; [inversion He; subst; apply Hok; exact Hin | apply Hok; eapply memo_del_incl; eauto].
+Qed.
+Lemma memo_ok_add E l x tm mm : memo_ok E mm -> time_parse E l x = Some tm -> memo_ok E (memo_add (l, x) tm mm).
+Proof.
+  intros Hok Hp. unfold memo_add.
+  assert (H : memo_ok E (((l, x), tm) :: memo_del (l, x) mm)).
+  { intros l' v' tm' [He | Hin]; [inversion He; subst; exact Hp | apply Hok; eapply memo_del_incl; eauto]. }
+  destruct (Nat.ltb 64 (length (((l, x), tm) :: memo_del (l, x) mm))); [|exact H].
+  intros l' v' tm' Hin. apply H. apply in_removelast. exact Hin.
+Qed.
 
 Section Store.
 Variable decls : list mdecl.
@@ -229,5 +266,365 @@ Proof.
         cbn. rewrite Hz. reflexivity.
       * split; [reflexivity|]. unfold v. rewrite Hmt. destruct (md_ty d); cbn; congruence.
 Qed.
+
+(* ---- no aliasing: consequences of NoDup over all pointers ---- *)
+Lemma nodup_app_disj {A} (l1 l2 : list A) x : NoDup (l1 ++ l2) -> In x l1 -> In x l2 -> False.
+Proof.
+  induction l1 as [|a l1 IH]; intros Hn H1 H2; [destruct H1|].
+  cbn in Hn. apply NoDup_cons_iff in Hn as [Hna Hn]. destruct H1 as [-> | H1].
+  - apply Hna. apply in_or_app. right. exact H2.
+  - apply IH; auto.
+Qed.
+
+Lemma nodup_app_r {A} (l1 l2 : list A) : NoDup (l1 ++ l2) -> NoDup l2.
+Proof. induction l1; cbn; intros H; [exact H|]. apply NoDup_cons_iff in H as [_ H]. auto. Qed.
+Lemma nodup_app_l {A} (l1 l2 : list A) : NoDup (l1 ++ l2) -> NoDup l1.
+Proof.
+  induction l1; cbn; intros H; [constructor|]. apply NoDup_cons_iff in H as [Hn H].
+  constructor; [|auto]. intros Hin. apply Hn. apply in_or_app. left. exact Hin.
+Qed.
+
+Lemma nodup_inner {A B} (f : A -> B) (l : list (list A)) i a :
+  NoDup (map f (concat l)) -> nth_error l i = Some a -> NoDup (map f a).
+Proof.
+  revert i. induction l as [|a0 l IH]; intros [|i] Hn Hi; cbn in *; try discriminate.
+  - inversion Hi; subst. rewrite map_app in Hn. eapply nodup_app_l; eauto.
+  - rewrite map_app in Hn. eapply IH; [eapply nodup_app_r; eauto | exact Hi].
+Qed.
+
+Lemma in_concat_nth {A} (l : list (list A)) i a x : nth_error l i = Some a -> In x a -> In x (concat l).
+Proof. intros Hi Hx. apply in_concat. exists a. split; [eapply nth_error_In; eauto | exact Hx]. Qed.
+
+Lemma nodup_cross {A B} (f : A -> B) (l : list (list A)) i j a b x y :
+  NoDup (map f (concat l)) -> nth_error l i = Some a -> nth_error l j = Some b -> i <> j ->
+  In x a -> In y b -> f x <> f y.
+Proof.
+  revert i j. induction l as [|a0 l IH]; intros [|i] [|j] Hn Hi Hj Hne Hx Hy; cbn in *; try discriminate; try congruence.
+  - inversion Hi; subst. rewrite map_app in Hn. intros He.
+    eapply (nodup_app_disj _ _ (f x) Hn); [apply in_map; exact Hx|].
+    rewrite He. apply in_map. eapply in_concat_nth; eauto.
+  - inversion Hj; subst. rewrite map_app in Hn. intros He.
+    eapply (nodup_app_disj _ _ (f y) Hn); [apply in_map; exact Hy|].
+    rewrite <- He. apply in_map. eapply in_concat_nth; eauto.
+  - rewrite map_app in Hn. eapply IH; [eapply nodup_app_r; eauto | exact Hi | exact Hj | congruence | exact Hx | exact Hy].
+Qed.
+
+Lemma lv_find_in ks lvs lv : lv_find ks lvs = Some lv -> In lv lvs.
+Proof.
+  induction lvs as [|a l IH]; cbn; [discriminate|]. destruct (tuple_eqb ks (lv_labels a)).
+  - intros H; inversion H; subst. left; reflexivity.
+  - intros H. right. auto.
+Qed.
+
+(* updating the cell of the first record with labels ks, within one metric *)
+Lemma upd_rel h ks lvs ds lv c f :
+  Forall2 (lv_rel h) lvs ds -> NoDup (map lv_datum lvs) -> lv_find ks lvs = Some lv ->
+  (forall d, rd_labels (f d) = rd_labels d /\ rd_expiry (f d) = rd_expiry d) ->
+  (forall d, find_datum ks ds = Some d -> c = cell_of (f d)) ->
+  Forall2 (lv_rel (list_set h (lv_datum lv) c)) lvs (upd_datum ks f ds).
+Proof.
+  intros H. induction H as [|lv0 d0 lvs ds Hr H IH]; intros Hnd Hfind Hf Hc; [constructor|].
+  cbn in *. apply NoDup_cons_iff in Hnd as [Hnin Hnd].
+  unfold lv_rel in Hr. destruct Hr as (Hl & He & Hn).
+  rewrite <- Hl in *. rewrite (tuple_eqb_sym (lv_labels lv0) ks) in *.
+  destruct (tuple_eqb ks (lv_labels lv0)) eqn:Hk.
+  - inversion Hfind; subst lv0. constructor.
+    + destruct (Hf d0) as [Hf1 Hf2]. unfold lv_rel. rewrite Hf1, Hf2. repeat split; auto.
+      rewrite nth_error_list_set_same; [rewrite (Hc d0 eq_refl); reflexivity|].
+      apply nth_error_Some. congruence.
+    + eapply Forall2_mono; [|exact H]. intros x y Hin (H1 & H2 & H3). repeat split; auto.
+      rewrite nth_error_list_set_other; [exact H3|].
+      intros Heq. apply Hnin. rewrite Heq. apply in_map. exact Hin.
+  - constructor.
+    + repeat split; auto. rewrite nth_error_list_set_other; [exact Hn|].
+      intros Heq. apply Hnin. rewrite <- Heq. apply in_map. eapply lv_find_in; eauto.
+    + apply IH; auto.
+Qed.
+
+Lemma rel_other_heap h p c lvs ds :
+  Forall2 (lv_rel h) lvs ds -> (forall lv, In lv lvs -> lv_datum lv <> p) ->
+  Forall2 (lv_rel (list_set h p c)) lvs ds.
+Proof.
+  intros H Hne. eapply Forall2_mono; [|exact H]. intros x y Hin (H1 & H2 & H3). repeat split; auto.
+  rewrite nth_error_list_set_other; [exact H3|]. intros He. apply (Hne x Hin). auto.
+Qed.
+
+(* Forall2 over the metrics, one of which is updated on both sides *)
+Lemma Forall2_update_at {A B} (R R' : A -> B -> Prop) l1 l2 n x y :
+  Forall2 R l1 l2 -> nth_error l1 n = Some x ->
+  (forall k a b, k <> n -> nth_error l1 k = Some a -> R a b -> R' a b) ->
+  R' x y -> Forall2 R' l1 (set_nth n y l2).
+Proof.
+  intros H. revert n. induction H as [|a b l1 l2 Hab H IH]; intros n Hn Hoth Hxy; [destruct n; discriminate|].
+  destruct n; cbn in *.
+  - inversion Hn; subst. constructor; [exact Hxy|].
+    eapply Forall2_mono; [|exact H]. intros a' b' Hin Hr.
+    apply In_nth_error in Hin as (k & Hk). apply (Hoth (S k) a' b'); [lia | exact Hk | exact Hr].
+  - constructor.
+    + apply (Hoth 0%nat a b); [lia | reflexivity | exact Hab].
+    + apply IH; [exact Hn | | exact Hxy]. intros k a' b' Hk Hk' Hr. apply (Hoth (S k) a' b'); [lia | exact Hk' | exact Hr].
+Qed.
+
+Lemma in_upd_datum ks f ds d' :
+  In d' (upd_datum ks f ds) -> In d' ds \/ exists d0, In d0 ds /\ d' = f d0.
+Proof.
+  induction ds as [|d ds IH]; cbn; [intros []|]. destruct (tuple_eqb (rd_labels d) ks).
+  - intros [<- | Hin]; [right; exists d; auto | left; right; exact Hin].
+  - intros [<- | Hin]; [left; left; reflexivity|].
+    destruct (IH Hin) as [H | (d0 & H & ->)]; [left; right; exact H | right; exists d0; auto].
+Qed.
+
+Lemma write_sim rst st m ks p v rt :
+  srel rst st -> points st (N.to_nat m) ks p -> vty v = mty m ->
+  srel (set_mdata rst m (upd_datum ks (fun d => mkdatum (rd_labels d) v rt (rd_expiry d)) (mdata rst m)))
+       (mkstore (list_set (s_heap st) p (mkdcell (dval_of v) (dtime_of rt))) (s_mets st)).
+Proof.
+  intros Hs (lvs & lv & Hlvs & Hfind & Hp) Hv. subst p.
+  destruct (mdata_nth _ _ _ _ Hs Hlvs) as (ds & Hds & Hf).
+  assert (Hmd : mdata rst m = ds) by (unfold mdata; eapply nth_error_nth'; eauto).
+  destruct Hs as [Hmets' Hlen Hnd Hty]. constructor; cbn [s_heap s_mets].
+  - unfold set_mdata. rewrite Hmd.
+    eapply Forall2_update_at; [exact Hmets' | exact Hlvs | | ].
+    + intros k a b Hk Ha Hr. apply rel_other_heap; [exact Hr|].
+      intros lv' Hin. eapply (nodup_cross lv_datum (s_mets st) k (N.to_nat m) a lvs lv' lv Hnd Ha Hlvs Hk Hin).
+      eapply lv_find_in; eauto.
+    + eapply upd_rel; [exact Hf | eapply nodup_inner; eauto | exact Hfind | | ].
+      * intros d. cbn. auto.
+      * intros d _. reflexivity.
+  - unfold set_mdata. rewrite set_nth_length. exact Hlen.
+  - exact Hnd.
+  - intros m' d' Hin. unfold set_mdata, mdata in Hin.
+    destruct (Nat.eq_dec (N.to_nat m) (N.to_nat m')) as [He|Hne].
+    + rewrite <- He in Hin. rewrite nth_set_nth_same in Hin by (apply nth_error_Some; congruence).
+      assert (m' = m) by lia. subst m'.
+      apply in_upd_datum in Hin as [Hin | (d0 & Hd0 & ->)]; [apply Hty; exact Hin | cbn; exact Hv].
+    + rewrite nth_set_nth_other in Hin by exact Hne. apply Hty. exact Hin.
+Qed.
+
+
+(* ---- del ---- *)
+Lemma del_rel h ks lvs ds :
+  Forall2 (lv_rel h) lvs ds -> Forall2 (lv_rel h) (lv_del ks lvs) (del_datum ks ds).
+Proof.
+  intros H. induction H as [|lv d lvs ds Hr H IH]; [constructor|]. cbn.
+  pose proof Hr as Hr'. unfold lv_rel in Hr'. destruct Hr' as (Hl & _ & _).
+  rewrite <- Hl, (tuple_eqb_sym (lv_labels lv) ks).
+  destruct (tuple_eqb ks (lv_labels lv)); [exact H | constructor; auto].
+Qed.
+
+Lemma lv_del_incl ks lvs lv : In lv (lv_del ks lvs) -> In lv lvs.
+Proof.
+  induction lvs as [|a l IH]; cbn; [intros []|]. destruct (tuple_eqb ks (lv_labels a)).
+  - intros H; right; exact H.
+  - intros [<- | H]; [left; reflexivity | right; auto].
+Qed.
+Lemma del_datum_incl ks ds d : In d (del_datum ks ds) -> In d ds.
+Proof.
+  induction ds as [|a l IH]; cbn; [intros []|]. destruct (tuple_eqb (rd_labels a) ks).
+  - intros H; right; exact H.
+  - intros [<- | H]; [left; reflexivity | right; auto].
+Qed.
+
+Lemma nodup_del_app {B} (f : lvrec -> B) ks a r :
+  NoDup (map f (a ++ r)) -> NoDup (map f (lv_del ks a ++ r)).
+Proof.
+  induction a as [|x a IH]; cbn; [auto|]. intros H. apply NoDup_cons_iff in H as [Hn H].
+  destruct (tuple_eqb ks (lv_labels x)); [exact H|]. cbn. constructor; [|auto].
+  intros Hin. apply Hn. rewrite map_app in *. apply in_app_or in Hin as [Hin | Hin]; apply in_or_app; [left|right; exact Hin].
+  apply in_map_iff in Hin as (y & Hy & Hin). apply in_map_iff. exists y. split; [exact Hy | eapply lv_del_incl; eauto].
+Qed.
+
+Lemma nodup_concat_del {B} (f : lvrec -> B) ks (l : list (list lvrec)) n a :
+  NoDup (map f (concat l)) -> nth_error l n = Some a ->
+  NoDup (map f (concat (list_set l n (lv_del ks a)))).
+Proof.
+  revert n. induction l as [|a0 l IH]; intros [|n] Hn Hi; cbn in *; try discriminate.
+  - inversion Hi; subst. apply nodup_del_app. exact Hn.
+  - rewrite map_app in *. 
+    assert (Hr : NoDup (map f (concat (list_set l n (lv_del ks a))))) by (eapply IH; [eapply nodup_app_r; eauto | exact Hi]).
+    clear IH. revert Hn. generalize (map f a0) as pre. intros pre Hn.
+    induction pre as [|x pre IHp]; cbn in *; [exact Hr|].
+    apply NoDup_cons_iff in Hn as [Hx Hn]. constructor; [|auto].
+    intros Hin. apply Hx. apply in_app_or in Hin as [Hin | Hin]; apply in_or_app; [left; exact Hin | right].
+    apply in_map_iff in Hin as (y & Hy & Hin). apply in_map_iff. exists y. split; [exact Hy|].
+    apply in_concat in Hin as (l0 & Hl0 & Hin0). apply In_nth_error in Hl0 as (k & Hk).
+    destruct (Nat.eq_dec n k) as [<- | Hne].
+    + rewrite nth_error_list_set_same in Hk by (apply nth_error_Some; congruence). inversion Hk; subst.
+      eapply in_concat_nth; [exact Hi | eapply lv_del_incl; eauto].
+    + rewrite nth_error_list_set_other in Hk by exact Hne. eapply in_concat_nth; eauto.
+Qed.
+
+Lemma del_sim rst st m ks :
+  srel rst st -> metric_ok decls m (length ks) = true ->
+  exists st', remove_datum o st (N.to_nat m) ks = Ok st' /\
+    srel (set_mdata rst m (del_datum ks (mdata rst m))) st'.
+Proof.
+  intros Hs Hmok.
+  destruct (metric_lookup _ _ Hmok) as (d & Hd & Hk & Hnb & Hmd & Hmt).
+  assert (Hlt : (N.to_nat m < length (s_mets st))%nat).
+  { rewrite (srel_mets_len _ _ Hs). apply nth_error_Some. congruence. }
+  destruct (nth_error (s_mets st) (N.to_nat m)) as [lvs|] eqn:Hlvs; [|apply nth_error_None in Hlvs; lia].
+  destruct (mdata_nth _ _ _ _ Hs Hlvs) as (ds & Hds & Hf).
+  assert (Hmd' : mdata rst m = ds) by (unfold mdata; eapply nth_error_nth'; eauto).
+  unfold remove_datum. rewrite Hmd, Hlvs. cbn [md_arity mdesc_of]. rewrite Hk, Nat.eqb_refl. cbn [negb].
+  eexists. split; [reflexivity|].
+  destruct Hs as [Hmets' Hlen Hnd Hty]. constructor; cbn [s_heap s_mets].
+  - unfold set_mdata. rewrite Hmd'. apply Forall2_set; [exact Hmets' | apply del_rel; exact Hf].
+  - unfold set_mdata. rewrite set_nth_length. exact Hlen.
+  - eapply nodup_concat_del; eauto.
+  - intros m' d' Hin. unfold set_mdata, mdata in Hin.
+    destruct (Nat.eq_dec (N.to_nat m) (N.to_nat m')) as [He|Hne].
+    + rewrite <- He in Hin. rewrite nth_set_nth_same in Hin by (rewrite Hlen; apply nth_error_Some; congruence).
+      assert (m' = m) by lia. subst m'. apply Hty. eapply del_datum_incl; eauto.
+    + rewrite nth_set_nth_other in Hin by exact Hne. apply Hty. exact Hin.
+Qed.
+
+
+(* ---- del ... after ---- *)
+Lemma expiry_rel h ks e lvs ds :
+  Forall2 (lv_rel h) lvs ds ->
+  Forall2 (lv_rel h) (lv_set_expiry ks e lvs)
+          (upd_datum ks (fun x => mkdatum (rd_labels x) (rd_val x) (rd_time x) e) ds).
+Proof.
+  intros H. induction H as [|lv d lvs ds Hr H IH]; [constructor|]. cbn.
+  pose proof Hr as Hr'. unfold lv_rel in Hr'. destruct Hr' as (Hl & He & Hc).
+  rewrite <- Hl, (tuple_eqb_sym (lv_labels lv) ks).
+  destruct (tuple_eqb ks (lv_labels lv)); constructor; auto.
+  unfold lv_rel. cbn. repeat split; auto.
+Qed.
+
+Lemma expiry_ptrs ks e lvs : map lv_datum (lv_set_expiry ks e lvs) = map lv_datum lvs.
+Proof. induction lvs as [|a l IH]; cbn; [reflexivity|]. destruct (tuple_eqb ks (lv_labels a)); cbn; congruence. Qed.
+
+Lemma concat_set_same_map {A B} (f : A -> B) (l : list (list A)) n a a' :
+  nth_error l n = Some a -> map f a' = map f a ->
+  map f (concat (list_set l n a')) = map f (concat l).
+Proof.
+  revert n. induction l as [|a0 l IH]; intros [|n] Hi He; cbn in *; try discriminate.
+  - inversion Hi; subst. rewrite !map_app, He. reflexivity.
+  - rewrite !map_app. f_equal. eapply IH; eauto.
+Qed.
+
+Lemma expire_sim rst st m ks e :
+  srel rst st -> metric_ok decls m (length ks) = true ->
+  match find_datum ks (mdata rst m) with
+  | Some _ =>
+      exists st', expire_datum o st (N.to_nat m) ks e = Ok st' /\
+        srel (set_mdata rst m (upd_datum ks (fun x => mkdatum (rd_labels x) (rd_val x) (rd_time x) e) (mdata rst m))) st'
+  | None => expire_datum o st (N.to_nat m) ks e = Er ENoDatum
+  end.
+Proof.
+  intros Hs Hmok.
+  destruct (metric_lookup _ _ Hmok) as (d & Hd & Hk & Hnb & Hmd & Hmt).
+  assert (Hlt : (N.to_nat m < length (s_mets st))%nat).
+  { rewrite (srel_mets_len _ _ Hs). apply nth_error_Some. congruence. }
+  destruct (nth_error (s_mets st) (N.to_nat m)) as [lvs|] eqn:Hlvs; [|apply nth_error_None in Hlvs; lia].
+  destruct (mdata_nth _ _ _ _ Hs Hlvs) as (ds & Hds & Hf).
+  assert (Hmd' : mdata rst m = ds) by (unfold mdata; eapply nth_error_nth'; eauto).
+  unfold expire_datum. rewrite Hmd, Hlvs. cbn [md_arity mdesc_of]. rewrite Hk, Nat.eqb_refl. cbn [negb].
+  rewrite Hmd'. pose proof (find_rel (s_heap st) ks lvs ds Hf) as Hfr.
+  destruct (lv_find ks lvs) as [lv|] eqn:Hfind.
+  - destruct Hfr as (d0 & Hfd & _). rewrite Hfd. eexists. split; [reflexivity|].
+    destruct Hs as [Hmets' Hlen Hnd Hty]. constructor; cbn [s_heap s_mets].
+    + unfold set_mdata. apply Forall2_set; [exact Hmets' | apply expiry_rel; exact Hf].
+    + unfold set_mdata. rewrite set_nth_length. exact Hlen.
+    + rewrite (concat_set_same_map lv_datum _ _ lvs _ Hlvs (expiry_ptrs ks e lvs)). exact Hnd.
+    + intros m' d' Hin. unfold set_mdata, mdata in Hin.
+      destruct (Nat.eq_dec (N.to_nat m) (N.to_nat m')) as [He|Hne].
+      * rewrite <- He in Hin. rewrite nth_set_nth_same in Hin by (rewrite Hlen; apply nth_error_Some; congruence).
+        assert (m' = m) by lia. subst m'.
+        apply in_upd_datum in Hin as [Hin | (d1 & Hd1 & ->)]; [apply Hty; rewrite Hmd'; exact Hin|].
+        cbn. apply Hty. rewrite Hmd'. exact Hd1.
+      * rewrite nth_set_nth_other in Hin by exact Hne. apply Hty. exact Hin.
+  - rewrite Hfr. reflexivity.
+Qed.
+
+(* ---- observables ---- *)
+Lemma srel_obs rst st : srel rst st -> obs_vm st = obs_ref rst.
+Proof.
+  intros [H _ _ _]. unfold obs_vm, obs_ref.
+  induction H as [|lvs ds ms rs Hf H IH]; [reflexivity|]. cbn. f_equal; [|exact IH].
+  clear - Hf. induction Hf as [|lv d lvs ds (Hl & He & Hc) Hf IH]; [reflexivity|]. cbn. f_equal; [|exact IH].
+  unfold obs_lv, obs_rd. rewrite (nth_error_nth' _ _ _ _ Hc). cbn. rewrite Hl, He. reflexivity.
+Qed.
+
+
+(* ---- the freshly loaded program ---- *)
+Lemma init_pair d p :
+  decl_ok d = true ->
+  match init_metric (mdesc_of d) p with
+  | Some (c, lv) => exists dd, init_datum d = [dd] /\ c = cell_of dd /\ lv_labels lv = rd_labels dd /\
+                               lv_expiry lv = rd_expiry dd /\ lv_datum lv = p
+  | None => init_datum d = []
+  end.
+Proof.
+  unfold decl_ok, init_metric, init_datum. destruct d as [k t n]. cbn.
+  destruct n as [|pn]; cbn.
+  - destruct k, t; cbn; intros H; try discriminate; try reflexivity;
+      (eexists; repeat split; reflexivity).
+  - assert (Hn : Nat.eqb (Pos.to_nat pn) 0 = false) by (apply Nat.eqb_neq; lia). rewrite Hn.
+    destruct k, t; intros; reflexivity.
+Qed.
+
+Lemma init_mets_rel ds : forall heap,
+  forallb decl_ok ds = true ->
+  exists ex, fst (init_mets (map mdesc_of ds) heap) = heap ++ ex /\
+    Forall2 (Forall2 (lv_rel (fst (init_mets (map mdesc_of ds) heap))))
+            (snd (init_mets (map mdesc_of ds) heap)) (map init_datum ds) /\
+    (forall lv, In lv (concat (snd (init_mets (map mdesc_of ds) heap))) ->
+                (length heap <= lv_datum lv)%nat) /\
+    NoDup (map lv_datum (concat (snd (init_mets (map mdesc_of ds) heap)))).
+Proof.
+  induction ds as [|d ds IH]; intros heap Hok.
+  - exists []. cbn. rewrite app_nil_r. repeat split; [constructor | intros lv [] | constructor].
+  - cbn in Hok. apply andb_prop in Hok as [Hd Hok]. cbn [map init_mets].
+    pose proof (init_pair d (length heap) Hd) as Hp.
+    destruct (init_metric (mdesc_of d) (length heap)) as [[c lv]|].
+    + destruct Hp as (dd & Hdd & Hc & Hl & He & Hptr).
+      destruct (IH (heap ++ [c]) Hok) as (ex & Hh & Hf & Hb & Hnd).
+      destruct (init_mets (map mdesc_of ds) (heap ++ [c])) as [h' ms] eqn:Him. cbn [fst snd] in *.
+      exists (c :: ex). split; [rewrite Hh, <- app_assoc; reflexivity|]. split; [|split].
+      * constructor; [|exact Hf]. rewrite Hdd. constructor; [|constructor].
+        unfold lv_rel. repeat split; auto. rewrite Hptr, Hh, <- app_assoc.
+        rewrite nth_error_app2 by lia. rewrite Nat.sub_diag. cbn. congruence.
+      * intros lv' [<- | Hin]; [lia|]. specialize (Hb lv' Hin). rewrite app_length in Hb. cbn in Hb. lia.
+      * cbn. constructor; [|exact Hnd]. intros Hin. apply in_map_iff in Hin as (lv' & Hp' & Hin).
+        specialize (Hb lv' Hin). rewrite app_length in Hb. cbn in Hb. lia.
+    + destruct (IH heap Hok) as (ex & Hh & Hf & Hb & Hnd).
+      destruct (init_mets (map mdesc_of ds) heap) as [h' ms] eqn:Him. cbn [fst snd] in *.
+      exists ex. split; [exact Hh|]. split; [|split]; [| exact Hb | exact Hnd].
+      constructor; [rewrite Hp; constructor | exact Hf].
+Qed.
+
+
+Lemma points_cell rst st m ks p :
+  srel rst st -> points st (N.to_nat m) ks p ->
+  exists d, find_datum ks (mdata rst m) = Some d /\ nth_error (s_heap st) p = Some (cell_of d) /\
+            vty (rd_val d) = mty m.
+Proof.
+  intros Hs (lvs & lv & Hlvs & Hfind & Hp). subst p.
+  destruct (mdata_nth _ _ _ _ Hs Hlvs) as (ds & Hds & Hf).
+  assert (Hmd : mdata rst m = ds) by (unfold mdata; eapply nth_error_nth'; eauto).
+  pose proof (find_rel (s_heap st) ks lvs ds Hf) as Hfr. rewrite Hfind in Hfr.
+  destruct Hfr as (d & Hfd & (_ & _ & Hc) & Hin & _). exists d. rewrite Hmd. repeat split; auto.
+  apply (sr_typed _ _ Hs m d). rewrite Hmd. exact Hin.
+Qed.
+
+
+Lemma init_srel : forallb decl_ok decls = true -> srel (map init_datum decls) (init_store o).
+Proof.
+  intros Hok. unfold init_store. rewrite Hmets.
+  destruct (init_mets_rel decls [] Hok) as (ex & Hh & Hf & _ & Hnd).
+  destruct (init_mets (map mdesc_of decls) []) as [h ms]. cbn [fst snd] in *.
+  constructor; cbn [s_heap s_mets]; auto.
+  - apply map_length.
+  - intros m d Hin. unfold mdata in Hin. unfold RefSem.mty.
+    destruct (nth_error decls (N.to_nat m)) as [dd|] eqn:Hn.
+    + rewrite (nth_error_nth' _ _ [] _ (map_nth_error init_datum _ _ Hn)) in Hin.
+      unfold init_datum in Hin. destruct (md_kind dd), (md_nkeys dd); cbn in Hin; try contradiction.
+      destruct Hin as [<- | []]. cbn. destruct (md_ty dd); reflexivity.
+    + apply nth_error_None in Hn. rewrite nth_overflow in Hin by (rewrite map_length; exact Hn). destruct Hin.
+Qed.
+
 
 End Store.
